@@ -88,6 +88,9 @@ def gen_world(rng, P, name):
                 continue
             busy.add((c.id, tid))
             base.acts.insert(0, (c.id, tid, tid, rng.choice(eng.RET_TOKS), None, [rng.choice(evs)]))
+    if scn.listener_kind == "hooks" and any(c[2] == "pickle" for c in w.clones):
+        # plain functions stored as instance attributes are not picklable (not a property of the library)
+        w.clones = [(a, b, "deepcopy", k) for (a, b, _m, k) in w.clones]
     # behaviour tables must agree on the common prefix: all members share the original's table
     for m in w.members[1:]:
         m.scn.acts = copy.deepcopy(base.acts)
